@@ -343,7 +343,8 @@ VALUES = [("int", "5", "(VInt 5)"), ("str", '"s"', '(VStr "s")'), ("arr", "[1]",
           ("B", "new B()", '(VObj "B")'), ("C", "new C()", '(VObj "C")'), ("D", "new D()", '(VObj "D")'),
           ("null", "null", "VNull"), ("bool", "true", "(VBool true)"), ("float", "1.5", "VFloat"),
           ("assoc", '["k" => 1]', "VArr"),                 # a string-keyed array is an array
-          ("S", "new S()", '(VObj "S")')]                   # an object with __toString is not a string
+          ("S", "new S()", '(VObj "S")'),                   # an object with __toString is not a string
+          ("floatint", "2.0", "VFloat"), ("floatdiv", "10/2", "VFloat"), ("floatexp", "1e3", "VFloat")]   # floats WITHOUT a fractional part are floats
 # property types of the accessor probes (None = untyped property)
 ACC_PTYPES = [None, "?int", "int|string", "?A", "A", "?I", "int|string|array"]
 # boundary sites: (label, Coq boundary)
@@ -515,15 +516,54 @@ def inst_deep_cases():
     return cases
 
 
-def inst_build(classes, ifaces):
+def inst_trait_cases():
+    """a trait that declares an abstract method (T1: f abstract, t concrete) or provides one (T2: f with a body), used by
+    a class at every position of a 1-3 class chain (root, class with a concrete / abstract parent, abstract intermediate
+    class above a concrete leaf); the using class and the leaf with and without their own f; T2 satisfying an interface.
+    In the table a trait's methods count as declared by the using class unless it declares the name itself (mergeTraits).
+    Not generated: the requirement satisfied only by a PARENT's f (refused by the code as written: a known false positive
+    of mergeTraits, see DESIGN)."""
+    traits = [("T1", [("f", True), ("t", False)]), ("T2", [("f", False)])]
+    cases = []
+    for own in ([], [("f", False)]):
+        # root class using the trait
+        cases.append(inst_build([("C1", None, False, [], own, ["T1"])], [], traits))
+        for pabs in (False, True):
+            # concrete / abstract parent (declares only g), child uses the trait
+            par = ("C1", None, pabs, [], [("g", False)])
+            cases.append(inst_build([par, ("C2", "C1", False, [], own, ["T1"])], [], traits))
+            # abstract intermediate class uses the trait, concrete leaf below it (twice removed as well)
+            for leaf in ([], [("f", False)]):
+                cases.append(inst_build([par, ("C2", "C1", True, [], own, ["T1"]), ("C3", "C2", False, [], leaf)], [], traits))
+                cases.append(inst_build([par, ("C2", "C1", True, [], own, ["T1"]), ("C3", "C2", True, [], []), ("C4", "C3", False, [], leaf)], [], traits))
+    # a trait method with a body satisfies an interface / an abstract method of the parent
+    ifs = [("I1", [], ["f"])]
+    cases.append(inst_build([("C1", None, False, ["I1"], [], ["T2"])], ifs, traits))
+    cases.append(inst_build([("C1", None, True, ["I1"], []), ("C2", "C1", False, [], [], ["T2"])], ifs, traits))
+    cases.append(inst_build([("C1", None, True, [], [("f", True)]), ("C2", "C1", False, [], [], ["T2"])], [], traits))
+    cases.append(inst_build([("C1", None, True, [], [("f", True)]), ("C2", "C1", True, [], []), ("C3", "C2", False, [], [], ["T2"])], [], traits))
+    return cases
+
+
+def inst_build(classes, ifaces, traits=()):
     L = []
+    classes = [tuple(c) + ((),) * (6 - len(c)) for c in classes]
+    tmeths = dict(traits)
     for name, ext, ms in ifaces:
         L.append("interface %s%s { %s }" % (name, (" extends " + ", ".join(ext)) if ext else "",
                                             " ".join("public function %s();" % x for x in ms)))
-    for name, par, abstract, impls, ms in classes:
-        body = " ".join(("abstract public function %s();" % x) if ab else ("public function %s() { return 1; }" % x) for x, ab in ms)
+    for tname, ms in traits:
+        L.append("trait %s { %s }" % (tname, " ".join(("abstract public function %s();" % x) if ab else ("public function %s() { return 1; }" % x) for x, ab in ms)))
+    merged = []
+    for name, par, abstract, impls, ms, uses in classes:
+        body = " ".join(["use %s;" % u for u in uses] +
+                        [("abstract public function %s();" % x) if ab else ("public function %s() { return 1; }" % x) for x, ab in ms])
         L.append("%sclass %s%s%s { %s }" % ("abstract " if abstract else "", name, (" extends " + par) if par else "",
                                             (" implements " + ", ".join(impls)) if impls else "", body))
+        own = set(x for x, _ in ms)
+        merged.append((name, par, abstract, impls, list(ms) + [(x, ab) for u in uses for x, ab in tmeths[u] if x not in own]))
+    full_classes = classes
+    classes = merged
     base = [c[0] for c in classes] + [i[0] for i in ifaces]
     # every `new` is attempted three times (static name twice, then through a variable class name): the
     # decision must be the same each time — a rejection that was caught must be a rejection again
@@ -544,7 +584,7 @@ def inst_build(classes, ifaces):
             for name, par, abstract, impls, ms in classes),
         coq_list('("%s", {| ai_extends := %s; ai_meths := %s |})' % (name, coq_list('"%s"' % e for e in ext), coq_list('"%s"' % x for x in ms))
                  for name, ext, ms in ifaces))
-    return {"src": "\n".join(L) + "\n", "tbl": tbl, "names": names, "classes": classes, "ifaces": ifaces}
+    return {"src": "\n".join(L) + "\n", "tbl": tbl, "names": names, "classes": [list(c) for c in full_classes], "ifaces": ifaces, "traits": [list(t) for t in traits]}
 
 
 def run_impl(binary, srcs):
@@ -583,15 +623,16 @@ def main(ck):
             pr = rp["probe"]
             tsrc, tprobes = type_script_and_probes((pr["site"], pr["ty"], pr["val"]))
         elif "case" in rp and "classes" in rp["case"]:
-            icases = [inst_build([tuple(c[:4]) + ([tuple(m) for m in c[4]],) for c in rp["case"]["classes"]],
-                                 [tuple(i) for i in rp["case"]["ifaces"]])]
+            icases = [inst_build([tuple(c[:4]) + ([tuple(m) for m in c[4]],) + ((tuple(c[5]),) if len(c) > 5 else ()) for c in rp["case"]["classes"]],
+                                 [tuple(i) for i in rp["case"]["ifaces"]],
+                                 [(t[0], [tuple(m) for m in t[1]]) for t in rp["case"].get("traits", [])])]
         ck.log("replay: %d visibility probe(s), %d type probe(s), %d instantiation case(s)" % (
             sum(len(v[1]) for v in vis), len(tprobes), len(icases)))
     else:
         hs = shapes(rng)
         vis = [vis_script_and_probes(h) for h in hs]
         tsrc, tprobes = type_script_and_probes()
-        icases = inst_deep_cases() + [inst_case(rng) for _ in range(400 if ck.tier == "quick" else 6000)]
+        icases = inst_deep_cases() + inst_trait_cases() + [inst_case(rng) for _ in range(400 if ck.tier == "quick" else 6000)]
     srcs = [v[0] for v in vis] + [tsrc] + [c["src"] for c in icases]
     outs, rc, err = run_impl(binary, srcs)
     if len(outs) != len(srcs):
@@ -687,7 +728,7 @@ def main(ck):
     for j, (c, o) in enumerate(zip(icases, outs[len(vis) + 1:])):
         lines = [l for l in o["out"].split("\n") if l != ""]
         if o["outcome"] != "ok" or len(lines) != len(c["names"]):
-            ck.violation("impl-error:inst:%s" % o["outcome"], {"case": {k: c[k] for k in ("classes", "ifaces")}, "script": c["src"], "impl_out": o["out"][-800:], "detail": o.get("detail")})
+            ck.violation("impl-error:inst:%s" % o["outcome"], {"case": {k: c[k] for k in ("classes", "ifaces", "traits")}, "script": c["src"], "impl_out": o["out"][-800:], "detail": o.get("detail")})
             continue
         iterms.append("(%s, %s)" % (c["tbl"], coq_list('("%s", %s)' % (x, "true" if l == "A" else "false") for x, l in zip(c["names"], lines))))
         iidx.append(j)
@@ -699,7 +740,7 @@ def main(ck):
         pos = next((x - 1000 for x in cls if x >= 1000), None)
         name = c["names"][pos] if pos is not None and pos < len(c["names"]) else "?"
         kindname = "interface" if name.startswith("I") else "class"
-        rep = {"case": {k: c[k] for k in ("classes", "ifaces")}, "script": c["src"], "name": name, "clauses": cls}
+        rep = {"case": {k: c[k] for k in ("classes", "ifaces", "traits")}, "script": c["src"], "name": name, "clauses": cls}
         if 2 in cls:
             ck.violation("inst:%s" % kindname, dict(rep, clause="abstract_not_instantiable / interface_not_instantiable / concrete_complete"))
         if 1 in cls:
@@ -749,6 +790,6 @@ def main(ck):
                    "seeded class names), members (instance/static property, instance/static method) x 3 modifiers declared at two levels; sites: "
                    "top level, top-level closure, and code written in every class l running on an object of every class r <= l (plain and inside "
                    "a closure); every object class; every applicable path; stores read back through a getter of the declaring class. Types: 11 "
-                   "declared types x 12 value kinds x 16 boundary sites, plus the return boundary fed from a typed PROPERTY: 7 property types (incl. untyped) x 11 return types x 12 values "
+                   "declared types x 15 value kinds (floats with and without a fractional part) x 16 boundary sites, plus the return boundary fed from a typed PROPERTY: 7 property types (incl. untyped) x 11 return types x 12 values "
                    "through `return $this->p;`, `return $this->p ?? $this->p;` and (2 property types) a static accessor, applicable when the property's own type lets the value in. Instantiation: seeded hierarchies (2-5 classes, abstract flags, abstract/concrete methods f,g,h,k, 0-3 interfaces with extends and methods), `new X()` for every class and interface. evaluations = probes",
               traces=total)
